@@ -82,6 +82,97 @@ func c06ScanShape(dir string) (countOp string, countC int, fillOp string, fillC 
 
 func init() { Register("C06", genC06) }
 
+// c06Skeleton renders the decision structure of a function body: conditions, loop headers, returns, gotos/labels and
+// assignments, in source order, one normalised line each (declarations, comments and blank lines do not appear).
+func c06Skeleton(fset *token.FileSet, body *ast.BlockStmt) []string {
+	var out []string
+	var walk func(st ast.Stmt, ind string)
+	block := func(b *ast.BlockStmt, ind string) {
+		for _, st := range b.List {
+			walk(st, ind)
+		}
+	}
+	walk = func(st ast.Stmt, ind string) {
+		switch x := st.(type) {
+		case *ast.IfStmt:
+			hdr := "if "
+			if x.Init != nil {
+				hdr += c06NodeText(fset, x.Init) + "; "
+			}
+			out = append(out, ind+hdr+c06ExprText(fset, x.Cond)+" {")
+			block(x.Body, ind+"  ")
+			if x.Else != nil {
+				out = append(out, ind+"} else {")
+				if eb, ok := x.Else.(*ast.BlockStmt); ok {
+					block(eb, ind+"  ")
+				} else {
+					walk(x.Else, ind+"  ")
+				}
+			}
+			out = append(out, ind+"}")
+		case *ast.ForStmt:
+			hdr := "for "
+			if x.Init != nil {
+				hdr += c06NodeText(fset, x.Init)
+			}
+			hdr += "; "
+			if x.Cond != nil {
+				hdr += c06ExprText(fset, x.Cond)
+			}
+			hdr += "; "
+			if x.Post != nil {
+				hdr += c06NodeText(fset, x.Post)
+			}
+			out = append(out, ind+hdr+" {")
+			block(x.Body, ind+"  ")
+			out = append(out, ind+"}")
+		case *ast.RangeStmt:
+			k, v := "_", "_"
+			if x.Key != nil {
+				k = c06ExprText(fset, x.Key)
+			}
+			if x.Value != nil {
+				v = c06ExprText(fset, x.Value)
+			}
+			out = append(out, ind+"for "+k+", "+v+" := range "+c06ExprText(fset, x.X)+" {")
+			block(x.Body, ind+"  ")
+			out = append(out, ind+"}")
+		case *ast.BlockStmt:
+			block(x, ind)
+		case *ast.LabeledStmt:
+			out = append(out, ind+x.Label.Name+":")
+			walk(x.Stmt, ind)
+		case *ast.DeclStmt:
+			// declarations carry no decision
+		case *ast.EmptyStmt:
+		default:
+			out = append(out, ind+c06NodeText(fset, st))
+		}
+	}
+	block(body, "")
+	return out
+}
+
+func c06NodeText(fset *token.FileSet, n ast.Node) string {
+	var b bytes.Buffer
+	_ = printer.Fprint(&b, fset, n)
+	return strings.Join(strings.Fields(b.String()), " ")
+}
+
+func c06RenderStrings(name string, l []string) string {
+	var b strings.Builder
+	fmt.Fprintf(&b, "def %s : List String := [\n", name)
+	for i, s := range l {
+		sep := ","
+		if i == len(l)-1 {
+			sep = ""
+		}
+		fmt.Fprintf(&b, "  %s%s\n", LeanString(s), sep)
+	}
+	b.WriteString("]\n\n")
+	return b.String()
+}
+
 type c06Site struct{ file, fn, arg string }
 
 func c06ExprText(fset *token.FileSet, e ast.Expr) string {
@@ -101,6 +192,20 @@ func c06FuncName(fd *ast.FuncDecl) string {
 		}
 	}
 	return fd.Name.Name
+}
+
+func c06ScanSkeleton(dir string) ([]string, error) {
+	fset := token.NewFileSet()
+	f, e := parser.ParseFile(fset, filepath.Join(dir, "unistring", "string.go"), nil, 0)
+	if e != nil {
+		return nil, e
+	}
+	for _, d := range f.Decls {
+		if fd, ok := d.(*ast.FuncDecl); ok && fd.Recv == nil && fd.Name.Name == "Scan" && fd.Body != nil {
+			return c06Skeleton(fset, fd.Body), nil
+		}
+	}
+	return nil, fmt.Errorf("unistring.Scan not found")
 }
 
 func genC06(p *Pkg) (map[string]string, error) {
@@ -203,6 +308,15 @@ func genC06(p *Pkg) (map[string]string, error) {
 	if err != nil {
 		return nil, err
 	}
+	scanSk, err := c06ScanSkeleton(p.Dir)
+	if err != nil {
+		return nil, err
+	}
+	decFd := p.FuncDecl("lenientUtf16Decoder", "ReadRune")
+	if decFd == nil || decFd.Body == nil {
+		return nil, fmt.Errorf("lenientUtf16Decoder.ReadRune not found")
+	}
+	decSk := c06Skeleton(p.Fset, decFd.Body)
 	if len(uni) == 0 || len(asc) == 0 {
 		return nil, fmt.Errorf("no conversion sites found (package not parsed?)")
 	}
@@ -232,6 +346,38 @@ func genC06(p *Pkg) (map[string]string, error) {
 	fmt.Fprintf(&b, "/-- unistring.Scan: (operator, constant) of the two-unit test in the counting pass and of the one-unit test in the fill pass -/\n")
 	fmt.Fprintf(&b, "def scanCountTest : String × Nat := (%s, %d)\n\n", LeanString(cOp), cC)
 	fmt.Fprintf(&b, "def scanFillTest : String × Nat := (%s, %d)\n\n", LeanString(fOp), fC)
+	b.WriteString("/-- decision structure of lenientUtf16Decoder.ReadRune (string_unicode.go) -/\n")
+	b.WriteString(c06RenderStrings("decoderSkeleton", decSk))
+	b.WriteString("/-- decision structure of unistring.Scan (unistring/string.go) -/\n")
+	b.WriteString(c06RenderStrings("scanSkeleton", scanSk))
+	// decision structure of the String built-ins that Builtins.lean transcribes
+	type fnRef struct{ recv, name string }
+	bfs := []fnRef{{"Runtime", "stringproto_slice"}, {"Runtime", "stringproto_substring"}, {"Runtime", "stringproto_substr"},
+		{"Runtime", "stringproto_at"}, {"Runtime", "stringproto_charAt"}, {"Runtime", "_stringPad"}, {"Runtime", "stringproto_repeat"},
+		{"Runtime", "string_fromcharcode"}, {"Runtime", "string_fromcodepoint"}, {"", "writeSubstitution"},
+		{"Runtime", "stringReplace"}, {"Runtime", "stringproto_replace"}, {"Runtime", "stringproto_replaceAll"}, {"Runtime", "stringproto_concat"}}
+	b.WriteString("def builtinSkeletons : List (String × List String) := [\n")
+	for i, fr := range bfs {
+		fd := p.FuncDecl(fr.recv, fr.name)
+		if fd == nil || fd.Body == nil {
+			return nil, fmt.Errorf("%s not found", fr.name)
+		}
+		sk := c06Skeleton(p.Fset, fd.Body)
+		b.WriteString("  (" + LeanString(fr.name) + ", [\n")
+		for j, l := range sk {
+			sep := ","
+			if j == len(sk)-1 {
+				sep = ""
+			}
+			b.WriteString("    " + LeanString(l) + sep + "\n")
+		}
+		if i == len(bfs)-1 {
+			b.WriteString("  ])\n")
+		} else {
+			b.WriteString("  ]),\n")
+		}
+	}
+	b.WriteString("]\n\n")
 	b.WriteString("end GojaModel.Generated.C06\n")
 	return map[string]string{"C06_Sites.lean": b.String()}, nil
 }
